@@ -322,11 +322,23 @@ class Stream:
             evs = runs[0][1]
         else:
             r = m["random_ref"]
-            evs = run_harness(bindir, ["random"] + r["args"])[r["run"]][1]
+            cmd = r.get("cmd") or (["random"] + r["args"])
+            key = (m["reset"]["build"], json.dumps(cmd))
+            if getattr(self, "_cache_key", None) != key:
+                self._cache_key, self._cache = key, run_harness(bindir, cmd)
+            evs = self._cache[r["run"]][1]
         return plan, m.get("random_ref"), [e for e in evs if e["ev"] != "skip"]
 
 
-def report_stream(chk, stream, bad, bindirs, detail_cap=12):
+CLAUSE_OP = {"panic_get_slot": "get", "slot_refused_while_ring_not_full": "get", "get_slot_pointer_outside_ring": "get",
+             "slot_handed_out_before_consumed": "get", "panic_flush": "flush", "flushed_entry_not_visible_to_kernel": "flush",
+             "kernel_sees_entry_never_flushed": "flush", "kernel_consumed_entry_never_flushed": "consume",
+             "consumed_wrong_entry_or_order": "consume", "panic_reap": "reap", "none_returned_while_completion_pending": "reap",
+             "reap_pointer_outside_ring": "reap", "completion_returned_that_was_not_posted": "reap",
+             "content_overwritten_between_return_and_read": "read", "wrong_completion_content": "read"}
+
+
+def report_stream(chk, stream, bad, bindirs, detail_cap=6):
     """turn judged rejections into violations; returns set of rejected run indices.
     Events are regenerated for the first `detail_cap` rejections of each (clause, build)."""
     rejected = set()
@@ -349,15 +361,10 @@ def report_stream(chk, stream, bad, bindirs, detail_cap=12):
             m["_sig"] = (ev["ev"], shape)
         else:
             # same clause and build as rejections already documented in full: classify from the trace position only
-            evk, shape = ("read", "reap,post,read") if why == "content_overwritten_between_return_and_read" else (None, None)
-            if evk is None:
-                plan, rnd, evs = stream.events_of(r, bindirs)
-                ev = evs[e] if 0 <= e < len(evs) else {"ev": "?"}
-                evk = ev["ev"]
-                replay = {"source": m["source"], "plan": plan, "random": rnd, "reset": reset, "events": evs[max(0, e - 40):e + 1], "clause": why}
-            else:
-                ev = {"ev": evk}
-                replay = {"source": m["source"], "plan_ref": m.get("plan_ref"), "random": m.get("random_ref"), "reset": reset, "clause": why}
+            # (every clause belongs to one kind of event; a stale read always has the shape reap,post,read)
+            shape = "reap,post,read" if why == "content_overwritten_between_return_and_read" else None
+            ev = {"ev": CLAUSE_OP.get(why, "?")}
+            replay = {"source": m["source"], "plan_ref": m.get("plan_ref"), "random": m.get("random_ref"), "reset": reset, "clause": why}
             wrapped = False
         sig = {"clause": why, "op": ev["ev"], "build": reset["build"]}
         if why == "content_overwritten_between_return_and_read":
